@@ -473,15 +473,47 @@ def case(draw, tier):
     return {"family": fam, "orders": orders, "calls": calls}
 
 
+@st.composite
+def variadic_case(draw, tier):
+    """families with variadic overloads (`f(a, *rest)`): the last parameter pattern matches zero or more trailing arguments,
+    each independently, under the bindings made by the fixed parameters (operator_dispatch.cpp try_match, tail scope)"""
+    nfix = draw(st.integers(0, 2))
+    fixed = [draw(schema(1)) for _ in range(nfix)]
+    tail_t = draw(st.sampled_from(fixed)) if fixed and draw(st.booleans()) else draw(schema(1))
+    vars_ts, vars_sc, vars_sz = ["V", "W"], ["T", "U"], ["N", "M"]
+    fam = []
+    for ci in range(draw(st.integers(1, 4))):
+        variadic = draw(st.integers(0, 3)) != 0
+        src = fixed if draw(st.integers(0, 3)) else [draw(schema(1)) for _ in range(nfix)]
+        params = [canon(generalise(draw, x, vars_ts, vars_sc, vars_sz)) for x in src]
+        if variadic:
+            params.append(canon(generalise(draw, tail_t, vars_ts, vars_sc, vars_sz)))
+        else:
+            # a fixed-arity rival taking one or two more arguments
+            params += [canon(generalise(draw, tail_t, vars_ts, vars_sc, vars_sz)) for _ in range(draw(st.integers(0, 2)))]
+        nf = len(params) - 1 if variadic else len(params)
+        outs = [q for q in params[:nf] if not has_special(q)]
+        out = draw(st.sampled_from(outs)) if outs and draw(st.booleans()) else ("c", "TS[int]")
+        fam.append({"label": f"C{ci}", "params": params, "out": out, "variadic": variadic})
+    orders = [draw(st.permutations(list(range(len(fam))))) for _ in range(draw(st.integers(2, 3)))]
+    calls = []
+    for _ in range(draw(st.integers(1, 4))):
+        ntail = draw(st.integers(0, 3))
+        other = draw(schema(1))
+        calls.append(list(fixed) + [tail_t if draw(st.integers(0, 2)) else other for _ in range(ntail)])
+    return {"family": fam, "orders": orders, "calls": calls, "variadic": True}
+
+
 def strategy(tier):
-    return case(tier)
+    return st.one_of(case(tier), case(tier), case(tier), case(tier), variadic_case(tier))
 
 
 def check(case, ctx) -> Result:
     res = Result()
-    fam = [{"label": c["label"], "params": [tup(p) for p in c["params"]], "out": tup(c["out"])} for c in case["family"]]
+    fam = [{"label": c["label"], "params": [tup(p) for p in c["params"]], "out": tup(c["out"]), "variadic": bool(c.get("variadic"))} for c in case["family"]]
     calls = [[tup(s) for s in c] for c in case["calls"]]
-    req = {"op": "resolve", "family": [{"label": c["label"], "params": [pat_json(p) for p in c["params"]], "out": pat_json(c["out"])} for c in fam],
+    var_family = any(c["variadic"] for c in fam)
+    req = {"op": "resolve", "family": [{"label": c["label"], "params": [pat_json(p) for p in c["params"]], "out": pat_json(c["out"]), "variadic": c["variadic"]} for c in fam],
            "orders": case["orders"], "calls": [[sstr(s) for s in c] for c in calls]}
     resp = ctx.request(req)
     if resp.get("crash"):
@@ -506,7 +538,14 @@ def check(case, ctx) -> Result:
         matches = {}
         for c in fam:
             b = {}
-            if len(c["params"]) == len(call) and all(unify(p, s, b) for p, s in zip(c["params"], call)):
+            if c["variadic"]:
+                nf = len(c["params"]) - 1
+                # fixed parameters bind; every trailing argument must match the tail pattern under those bindings, each
+                # on its own (what a tail argument binds is not carried to the next one, nor to the result)
+                if len(call) >= nf and all(unify(p, s, b) for p, s in zip(c["params"][:nf], call[:nf])) and \
+                        all(unify(c["params"][nf], s, dict(b)) for s in call[nf:]):
+                    matches[c["label"]] = b
+            elif len(c["params"]) == len(call) and all(unify(p, s, b) for p, s in zip(c["params"], call)):
                 matches[c["label"]] = b
         by_label = {c["label"]: c for c in fam}
         if any(special):
@@ -514,6 +553,8 @@ def check(case, ctx) -> Result:
         if o.get("win") is None:
             if o["err"] == "nomatch" and matches:
                 res.violations.append(Viol("match_rejected", f"call {[sstr(s) for s in call]}: reported 'no matching overload' but {sorted(matches)} unify ({o.get('msg', '')[:300]})", feats))
+            if var_family:
+                continue       # how a variadic overload ranks against others is not part of the statement's vocabulary
             if o["err"] == "ambiguous" and len(matches) < 2 and not any(special):
                 res.violations.append(Viol("ambiguity_invented", f"call {[sstr(s) for s in call]}: reported ambiguous but only {sorted(matches)} unify", feats))
             if o["err"] == "ambiguous" and len(matches) == 2 and not any(special) and not any(("coerced",) in mb for mb in matches.values()):
@@ -546,7 +587,12 @@ def check(case, ctx) -> Result:
                     res.violations.append(Viol("binding_wrong", f"call {[sstr(s) for s in call]}: variable {name} bound to {rep}, arguments require {expv}", feats))
         # (c) most specific among comparable matching candidates
         comparable = False
-        for m in matches:
+        if var_family:
+            res.labels.append("variadic_family")
+            if any(c["variadic"] and len(call) > len(c["params"]) - 1 and c["label"] in matches and pat_vars(c["params"][-1], set()) & set().union(*[pat_vars(q, set()) for q in c["params"][:-1]] or [set()]) for c in fam):
+                res.labels.append("variadic_tail_shares_variable_with_fixed")
+                nontriv = True
+        for m in ([] if var_family else matches):
             if m == o["win"] or special[fam.index(by_label[m])] or special[fam.index(win)]:
                 continue
             if ("coerced",) in matches[m] or ("coerced",) in matches.get(o["win"], {}):
